@@ -302,6 +302,12 @@ def _horizon_value(ix, cls, f, nodes):
                 return _sym('%s(%s)' % (which, ','.join(sorted([repr(l), repr(r)]))))
         if isinstance(e, ast.Subscript) and isinstance(e.value, ast.Name) and e.value.id in pairs and isinstance(e.slice, ast.Constant) and e.slice.value in (0, 1):
             return _sym('BEGIN' if e.slice.value == 0 else 'END')
+        if isinstance(e, ast.Subscript) and isinstance(e.value, ast.Call) and isinstance(e.value.func, (ast.Name, ast.Attribute)) and isinstance(e.slice, ast.Constant) \
+                and e.slice.value in (0, 1):
+            # normaliser(..)[1]: the converted upper bound, without a name for the pair
+            ent = ix.resolve_expr(f.module, e.value.func)
+            if isinstance(ent, FuncInfo) and unitflow.is_normaliser(ent):
+                return _sym('BEGIN' if e.slice.value == 0 else 'END')
         if isinstance(e, ast.Call) and isinstance(e.func, ast.Name) and e.func.id in ('min', 'sum', 'abs') and e.args:
             args = [alg.AlgEval(env, leaf).ev(x) for x in e.args]
             return _sym('%s(%s)' % (e.func.id, ','.join(sorted(repr(a) for a in args))))
@@ -316,6 +322,7 @@ def _horizon_value(ix, cls, f, nodes):
             return _sym('BEGIN')
         return None
     for st in f.node.body:
+      try:
         if isinstance(st, ast.Assign) and len(st.targets) == 1:
             t = st.targets[0]
             if isinstance(t, ast.Name) and isinstance(st.value, ast.Call) and isinstance(st.value.func, (ast.Name, ast.Attribute)) \
@@ -344,6 +351,8 @@ def _horizon_value(ix, cls, f, nodes):
             continue
         else:
             raise AnalysisError('%s: `%s` not interpreted' % (f.where, ast.unparse(st)[:50]))
+      except ValueError as ex:
+        raise AnalysisError('%s: `%s` not interpreted (%s)' % (f.where, ast.unparse(st)[:50], ex))
     if out['ret'] is None:
         raise AnalysisError('%s: no return' % f.where)
     return out
